@@ -20,12 +20,14 @@ structure PKF (s s' : State) : Prop where
   top : s'.top = s.top
   perkeys : s'.perkeys = s.perkeys
   vars : s'.vars = s.vars
+  /-- the virtual stamps are kept (no node runs) -/
+  stamp : ∀ m, ((V s').nodeD m).recomputedAt = ((V s).nodeD m).recomputedAt
 
-theorem PKF.refl (s : State) : PKF s s := ⟨XF.refl s, fun _ => rfl, fun _ => rfl, rfl, rfl, rfl⟩
+theorem PKF.refl (s : State) : PKF s s := ⟨XF.refl s, fun _ => rfl, fun _ => rfl, rfl, rfl, rfl, fun _ => rfl⟩
 
 theorem PKF.trans {a b c : State} (h1 : PKF a b) (h2 : PKF b c) : PKF a c :=
   ⟨h1.xf.trans h2.xf, fun m => (h2.value m).trans (h1.value m), fun m => (h2.stale m).trans (h1.stale m),
-    h2.top.trans h1.top, h2.perkeys.trans h1.perkeys, h2.vars.trans h1.vars⟩
+    h2.top.trans h1.top, h2.perkeys.trans h1.perkeys, h2.vars.trans h1.vars, fun m => (h2.stamp m).trans (h1.stamp m)⟩
 
 /-- the records read through `xRec` along `XF` -/
 theorem xRec_of_xf {s s' : State} (h : XF s s') (e : Nat) :
@@ -55,7 +57,7 @@ theorem PKF.vKind {s s' : State} (F : PKF s s') (m : Nat) : ((V s').nodeD m).kin
 
 theorem PKF.kf {s s' : State} (F : PKF s s') : KF s s' := by
   refine ⟨Nat.le_of_eq F.xf.size.symm, fun m _ => F.xf.kind m, fun e er he => ?_, fun k n h => by rw [F.top]; exact h,
-    fun m _ => kidsX_of_xf F.xf m⟩
+    fun m _ => kidsX_of_xf F.xf m, fun m _ _ _ hs => by rw [F.stamp m]; exact hs⟩
   obtain ⟨er', he', h1, h2, h3, h4, h5⟩ := F.xf.xrec he
   exact ⟨er', he', by simp only [xCore, h1, h2, h3, h4, h5]⟩
 
